@@ -144,6 +144,7 @@ def run(ck, fb):
     r15e(ck, fb)
     r15f(ck, fb)
     r15g(ck, fb)
+    r15h(ck, fb)
 
 
 def _closure_calls_all(fb, fn, names):
@@ -333,3 +334,32 @@ def r15g(ck, fb):
         ck.analysed(d)
         w = [(bb, st) for (o, f, bb, st) in d.field_writes() if f == 'from_cluster']
         ck.require(len(w) >= 1, 'R15g', 'do_route_instance:stamps-origin', d.where(), 'the local copy of a routed instance is not stamped with the owner\'s cluster id')
+
+
+def r15h(ck, fb):
+    ck.rule('R15h', 'the sender\'s client ids are registered from the STAMPED origin: in handle_naming_route every test of instance.from_cluster '
+                    'against the sender\'s cluster id (which decides AddClientId / AddClientIds) is dominated by reset_cluster_info for that arm / loop '
+                    'iteration. Instances of the sender arrive with from_cluster == 0; tested before the stamp, none of its gRPC clients is tracked, '
+                    'and their instances stay when that node dies')
+    hr = [x for x in fb.find(r'^rnacos::naming::cluster::handle_naming_route$')]
+    if not hr:
+        ck.bad('R15h', 'anchor:handle_naming_route', '-', 'handle_naming_route not found')
+        return
+    m = fb.main(hr[0].name)
+    ck.analysed(m)
+    resets = m.calls(r'cluster::reset_cluster_info$')
+    n = 0
+    for (i, j, st) in m.stmts():
+        rv = st.get('rv')
+        if not rv or rv['k'] != 'bin' or rv['op'] not in ('Eq', 'Ne'):
+            continue
+        fa, fb_ = cfg.origin_fields(m, rv['a']), cfg.origin_fields(m, rv['b'])
+        if fa[-1:] != ['from_cluster'] and fb_[-1:] != ['from_cluster']:
+            continue
+        n += 1
+        ok = any(cfg.dominates_blocks(m, {r.bb}, i) and i in cfg.reach_from(m, [r.bb]) for r in resets)
+        # a loop: the stamp must be the one of this iteration, i.e. no path from the loop head to the test avoids it
+        ck.require(ok, 'R15h', 'handle_naming_route:origin-test-after-stamp', m.where(i),
+                   'from_cluster is compared with the sender\'s id before reset_cluster_info stamped it: the sender\'s own instances still carry 0 there, '
+                   'so none of its client ids is registered for that node (AddClientIds) and nothing removes their instances when the node dies')
+    ck.floor('R15h', 'origin tests in handle_naming_route', n, 3)
